@@ -147,9 +147,9 @@ def r11_2(ctx):
         out.ok(fn.qname, "a sequence of atomic __split_segment commits", where=fn.where())
     # (d) cache fills are a single store of a fully computed value
     for cls, mangled, fsrc, filler in cache.find_lazy_caches(ctx):
-        stores = [n for n in ast.walk(filler.node) if cache._stores_field(n, filler.params[0], fsrc)
+        stores = [n for n in ast.walk(filler.node) if cache._stores_field(n, cache.cache_param(filler, fsrc), fsrc)
                   and not (isinstance(n, ast.Assign) and isinstance(n.value, ast.Constant) and n.value.value is None)]
-        per_path = cache.max_fill_stores(filler.node.body, filler.params[0], fsrc)
+        per_path = cache.max_fill_stores(filler.node.body, cache.cache_param(filler, fsrc), fsrc)
         if per_path != 1:
             out.bad(filler.qname, f"cache {fsrc} is filled incrementally ({per_path} stores on one path): an exception in "
                                   f"between leaves a partial value that later queries trust", where=filler.where())
